@@ -23,7 +23,14 @@ RULE = ("schema-first logical documents (nested objects, arrays, arrays of objec
         "hints: 2000 documents `v <op> value  w = scalar` x every deserialize_* method (incl. char, str, bytes, byte_buf, unit, unit_struct, "
         "newtype_struct, tuple_struct, i128, u128, identifier) with a recording visitor x 5 entry points; oracle = a Python reading of the property text; "
         "hint_model: the same documents and hints, the FIRST deserializer step (which visit_* call with which payload) of the extracted "
-        "TextDeTape.tape_visit / TextDeStream.stream_visit against the implementation (slice path / reader path)")
+        "TextDeTape.tape_visit / TextDeStream.stream_visit against the implementation (slice path / reader path).  "
+        # [w_c02]
+        "enum_spec / enum_model / enum_real: 1500 full-grammar documents with 1-3 occurrences of an enum-typed field (scalar, header, "
+        "`{ name = payload }`, `{ name payload }`, arbitrary values) x enums with unit / newtype / tuple / struct variants whose payload shapes "
+        "are derived from the payloads x 5 entry points; oracle = the EXTRACTED TextDeEnum.spec_enum_fields, a Python reading on plain "
+        "payloads, and a serde-derived enum as anchor of the interpreter.  typed_keys / keys_model: 1200 maps with u8..u64 / i8..i64 / bool / "
+        "Date / DateHour / f64 / String / enum keys (valid, out of range, malformed) x 6 entry points incl. from_encoded_tape.  size_hints / "
+        "hints_model: 1000 sequences / maps visited by a visitor that records size_hint before every step")
 TRUSTED = ["walk_model: the extracted walks are fed the implementation's own tape (tt.parse) resp. reader tokens (tr.slice, chunking-independent by C07) of each text; Scalar::to_f64 is the extracted ScalarF64.to_f64_bits, the float casts of serde's visitors are the machine's (OCaml glue)",
            "serde's primitive Deserialize impls (u8..u64, i8..i64, f32, f64, bool, String, IgnoredAny) and serde-derive's code for "
            "jomini::text::Property<T> are used as they are (library behaviour, exercised not verified)",
@@ -211,6 +218,11 @@ def run(ctx):
     C02_hint.run(ctx)
     # <<< a_c02
 
+    # >>> w_c02 (wave 5): data-carrying enum variants, typed map keys, size hints / from_encoded_tape (props/C02_enum.py)
+    from props import C02_enum
+    C02_enum.run(ctx)
+    # <<< w_c02
+
     # scalar level: extracted Serde.text_scalar (typed hints with fall-back) against the real slice path
     from props import descalar
     ctx.correspond("scalar-hints", descalar.text_cases(ctx, ctx.scale(300, 3000)), nontrivial=nt)
@@ -229,6 +241,6 @@ def search(ctx):
 
 CLAIM = {
     "text": "every public text deserializer entry point (from_*_slice, from_*_tape, ObjectReader::deserialize, from_*_reader over a scripted Read) is run through a runtime-shape serde interpreter on generated documents x layouts x encodings x shapes and compared with an independently computed expected value; Coq: see coverage.theorems",
-    "note": "[a_c02] Props/C02_ext.v lifts the STREAM half beyond the core grammar: for every document the token reader can express (tails, key-value arrays, headers, `{}`; TextDeSpec2.sx_fields) and every shape on which the common specification spec_value2 false fits, deser_stream (tokens d) = spec_value2 false = deser_tape (flatten d) (C02_stream_path_ext_partial, C02_paths_agree_outside_headers_partial), also from the bytes of any rendering under every schedule / capacity >= need (C02_paths_agree_ext_bytes_partial); spec_value2 coincides with spec_value wherever the latter fits (C02_spec2_extends_spec_partial). spec_value2 is extracted and is the oracle of all entry points on generated full-grammar documents (stream ext_spec); the deserialize_* methods no runtime shape calls are driven by the kind de.hint against an independent oracle (stream hints); finding P-stream-i128 (i128 / u128 fields are refused by the stream path only) is recorded. [spec_tie] The specification the walk theorems are stated over (TextDeSpec.spec_value over TextDoc documents, TextDoc.render / flatten, TextDeSpec.tokens) is extracted and run on the generated documents: the Python renderer and dedoc.expected are checked against it and the implementation's values are compared with spec_value directly (stream spec_tie, keys tie-text-*). Props/C02.v pins the scalar/struct level; Props/C02_walk.v pins the deserializer walks: for every document of the core grammar (scalars, objects of key-op-value fields, arrays, any nesting) and every shape that fits, the extracted tape walk (TextDeTape.deser_tape on flatten d) and the stream walk (TextDeStream.deser_stream on the reader's tokens of d) both return spec_value, hence agree; findings H and M are reproduced by the models as witness theorems. Outside the core grammar (object tails / 'remainder', key-value arrays, headers, parameters, ghosts, any on containers) the walks are modelled and compared with the implementation case by case (stream walk_model, incl. a 390-case hand corpus) but not proved. Props/C02_walk2.v composes the walks with the byte level (from_slice via C01_parse_render for every layout; from_reader via the reference tokenizer and C07_stream_eq_tok for every schedule and fitting capacity, on documents without parameter blocks whose bare words do not start with '?') and extends the tape walk theorem to the whole TextDoc grammar against TextDeSpec2.spec_value2 (remainder key for object tails and arrays where a map is asked for, {} as the empty object, headers into seq/tuple/String/number/enum/ignored, parameter blocks); the stream half beyond the core grammar is not proved (difference witnesses only). The stream model runs over the reader's token list (skip_container at token level).",
+    "note": "[w_c02] Props/C02_enum.v: enums with data-carrying variants -- the tape path's EnumAccess / VariantDeserializer returns the variant and payload the document denotes (scalar, header, { name = payload }, { name payload }; payload read as TextDeSpec2.spec_v2 reads that value) at any value position of any tape and from the root (C02_enum_tape_value_spec_partial, C02_enum_tape_root_spec_partial); the stream path returns declared unit variants only, for every token list (C02_enum_stream_unit_only), so the two paths differ on every payload variant (finding Q-stream-data-enum, C02_enum_paths_differ_refuted); with unit variants only the new entry points are the ShEnum cases of the walks. Props/C02_keys.v: typed map keys at the hint level on both paths (agreement for every scalar key shape, exact key values, enum keys refused by the tape path = finding R-tape-enum-key) and exact size hints. [a_c02] Props/C02_ext.v lifts the STREAM half beyond the core grammar: for every document the token reader can express (tails, key-value arrays, headers, `{}`; TextDeSpec2.sx_fields) and every shape on which the common specification spec_value2 false fits, deser_stream (tokens d) = spec_value2 false = deser_tape (flatten d) (C02_stream_path_ext_partial, C02_paths_agree_outside_headers_partial), also from the bytes of any rendering under every schedule / capacity >= need (C02_paths_agree_ext_bytes_partial); spec_value2 coincides with spec_value wherever the latter fits (C02_spec2_extends_spec_partial). spec_value2 is extracted and is the oracle of all entry points on generated full-grammar documents (stream ext_spec); the deserialize_* methods no runtime shape calls are driven by the kind de.hint against an independent oracle (stream hints); finding P-stream-i128 (i128 / u128 fields are refused by the stream path only) is recorded. [spec_tie] The specification the walk theorems are stated over (TextDeSpec.spec_value over TextDoc documents, TextDoc.render / flatten, TextDeSpec.tokens) is extracted and run on the generated documents: the Python renderer and dedoc.expected are checked against it and the implementation's values are compared with spec_value directly (stream spec_tie, keys tie-text-*). Props/C02.v pins the scalar/struct level; Props/C02_walk.v pins the deserializer walks: for every document of the core grammar (scalars, objects of key-op-value fields, arrays, any nesting) and every shape that fits, the extracted tape walk (TextDeTape.deser_tape on flatten d) and the stream walk (TextDeStream.deser_stream on the reader's tokens of d) both return spec_value, hence agree; findings H and M are reproduced by the models as witness theorems. Outside the core grammar (object tails / 'remainder', key-value arrays, headers, parameters, ghosts, any on containers) the walks are modelled and compared with the implementation case by case (stream walk_model, incl. a 390-case hand corpus) but not proved. Props/C02_walk2.v composes the walks with the byte level (from_slice via C01_parse_render for every layout; from_reader via the reference tokenizer and C07_stream_eq_tok for every schedule and fitting capacity, on documents without parameter blocks whose bare words do not start with '?') and extends the tape walk theorem to the whole TextDoc grammar against TextDeSpec2.spec_value2 (remainder key for object tails and arrays where a map is asked for, {} as the empty object, headers into seq/tuple/String/number/enum/ignored, parameter blocks); the stream half beyond the core grammar is not proved (difference witnesses only). The stream model runs over the reader's token list (skip_container at token level).",
     "technique": "machine-checked proof in Coq over an executable model + model/implementation correspondence by extraction + specification oracle on the implementation",
 }
